@@ -880,6 +880,9 @@ class KafkaClient(object):
                 self.reset_consumer_group_metadata(consumer_group)
                 if fail_on_error:
                     raise
+            except BrokerResponseError:
+                if fail_on_error:
+                    raise
 
             if callback is not None:
                 out.append(callback(resp))
